@@ -13,15 +13,6 @@ static inline void DataArrayA_dataExtent_set(DataArrayA *self, const NDSize *e)
 static inline void DataArrayA_setData(DataArrayA *self, DataType dtype, const void *data, const NDSize *count, const NDSize *offset)
 { gh_writes++; gh_w_count_rank = count->rank; gh_w_offset_rank = offset->rank;
   gh_w_count_k = ghost_k < count->rank ? count->dims[ghost_k] : 0; gh_w_offset_k = ghost_k < offset->rank ? offset->dims[ghost_k] : 0; }
-/* NDSize(size_t rank, T fill_value): constructor units NDSize_ctor_fill / NDSize_fill, as a value */
-void NDSize_fill(NDSize *self, ndsize_t value)
-;
-void NDSize_ctor_fill(NDSize *self, size_t rank, ndsize_t fill_value)
-;
-static inline void fill_n(ndsize_t *dst, size_t n, ndsize_t v) { for (size_t i_ = 0; i_ < n; i_++) dst[i_] = v; }
-static inline NDSize mk_NDSize_2(size_t rank, ndsize_t fill)
-{ NDSize r; NDSize_ctor_fill(&r, rank, fill); return r; }
-
 #define A_OLD(k) (self->extent.dims[k])
 #define A_MISMATCH ND_EXISTS(ia, count->rank, ia != axis && self->extent.dims[ia] != count->dims[ia])
 NIX_THROWS void DataArray_appendData(DataArrayA *self, DataType dtype, const void *data, const NDSize *count, size_t axis)
